@@ -88,6 +88,7 @@ def exec (m : Machine) (ms : MState) (c : Ctx) (rest : List Ctx) : Instr → MSt
   | .loopInit id => cont ms { c with env := envSet c.env id 0 } rest
   | .loopTest id n a => if envGet c.env id < n then cont ms c rest else cont ms { c with pc := a } rest
   | .loopIncr id => cont ms { c with env := envSet c.env id (envGet c.env id + 1) } rest
+  | .ifTest id k a => if envGet c.env id = k then cont ms c rest else cont ms { c with pc := a } rest
   | .defer_ d => cont ms { c with defers := d :: c.defers } rest        -- deferByteCode
   | .runDefers =>                                                         -- runDefersByteCode
     match c.defers with
